@@ -70,7 +70,7 @@ func plainUL(r *kernel.Rand) []byte {
 	case 0:
 		return nasTestpacket.GetRegistrationComplete(nil)
 	case 1:
-		return nasTestpacket.GetSecurityModeComplete(r.Bytes(r.Pick(r.Range(0, 40), r.Range(0, 40), r.Range(240, 300), r.Range(500, 1000))))
+		return nasTestpacket.GetSecurityModeComplete(r.Bytes(r.Pick(r.Range(0, 40), r.Range(0, 40), r.Range(0, 40), r.Range(240, 300), r.Range(500, 1000), r.Range(0, 40), r.Range(4090, 6500))))
 	case 2:
 		sn := models.Snssai{Sst: 1, Sd: "010203"}
 		return nasTestpacket.GetUlNasTransport_PduSessionEstablishmentRequest(uint8(1+r.Intn(15)), nasMessage.ULNASTransportRequestTypeInitialRequest, "internet", &sn)
@@ -97,7 +97,8 @@ func (t *taskState) runOp(k int) (res string) {
 		case 1:
 			b, err = tglib.GetInitialUEMessage(ue.RanUeNgapId, r.Bytes(r.Range(3, 60)), "")
 		case 2:
-			b, err = tglib.GetPDUSessionResourceSetupResponse(ue.AmfUeNgapId, ue.RanUeNgapId, int64(1+r.Intn(15)), "10.0.0.1")
+			// gNBs (and so tasks) differ in their N3 address
+			b, err = tglib.GetPDUSessionResourceSetupResponse(ue.AmfUeNgapId, ue.RanUeNgapId, int64(1+r.Intn(15)), fmt.Sprintf("10.%d.%d.%d", t.seed%3, t.seed>>8%4, 1+t.seed>>16%5))
 		case 3:
 			b, err = tglib.GetInitialContextSetupResponse(ue.AmfUeNgapId, ue.RanUeNgapId)
 		default:
